@@ -568,7 +568,9 @@ def _(L):
 @contract("randgraph.randgraph", "count:int=15, edge:cls<=TwoEndedLink=DirectedEdge, connectivity:any=None, ensurelink:bool=True", props=("C20",),
           trusted=True, no_body=True, oracle_op=True)
 def _(c):
-    """NOT VERIFIED (float arithmetic for the sample sizes, the `random` module, a comprehension that allocates): nobody calls
+    """NOT VERIFIED BY THE HEAP EXECUTOR (float arithmetic for the sample sizes, the `random` module, a comprehension that allocates).
+    The scalar part of the body - sample sizes, no-raise conditions, one entry per index, vertex count - is verified separately by
+    pyvc/arith.py (`randgraph.randgraph#samplesize`, z3, unbounded).  Nobody calls
     this function, the contract only registers it so that the bounded stand-in of C20 (explorer operation `randgraph`:
     counts 1..7, four edge types, default / 0 / 0.2 / 0.5 / 1 connectivity, both ensurelink values, 10^6 seeds; vertex count and
     `i` attributes, link types, ends inside the universe, first-end guarantee, reproducibility under re-seeding) runs on every
